@@ -20,6 +20,7 @@ PROFILES = {
     'queue': lambda rnd: sp.gen_script_queue(rnd),
     'composed': lambda rnd: sp.gen_composed(rnd),
     'deco': lambda rnd: sp.gen_deco(rnd),
+    'fixrec0': lambda rnd: sp.gen_fixrec0(rnd),
     'isolate': lambda rnd: sp.gen_isolate(rnd),
     'isolate_sto': lambda rnd: sp.gen_isolate(rnd, 'sto'),
     'monfix': lambda rnd: sp.gen_monfix(rnd),
